@@ -325,6 +325,36 @@ static void real_runs(report& r, bool thorough)
     vf::script_engine::salt() = 0;
 }
 
+// ---- products at the bottom and at the top of the exponent range -------------------------------------
+// Direct calls with adjustment data so small (or so large) that the products w x d^beta are subnormal (or close to the
+// largest number): the sum is positive, so this is information, and the result must be the documented one.
+template <typename T>
+static void extreme_products(report& r)
+{
+    std::string const tn = vf::type_name<T>();
+    std::vector<T> const w = {T(0.25), T(0.25), T(0), T(0.5)};
+    T const dm = std::numeric_limits<T>::denorm_min(), mn = std::numeric_limits<T>::min(), mx = std::numeric_limits<T>::max();
+    struct fam { char const* name; T unit; };
+    for (auto const& f : {fam{"subnormal", dm * T(1024)}, fam{"barely-normal", mn}, fam{"just-above-subnormal-reciprocal", T(4) / mx}, fam{"huge", mx / T(1024)}})
+    for (T minw : {T(0), T(0.01L)})
+    {
+        std::string const id = tn + " extreme-products " + f.name + " min=" + vf::dec(minw);
+        if (!r.want(id)) continue;
+        r.eval(); r.transition();
+        // beta = 1: new weight proportional to w x d, here (8, 24, -, 32) x unit -> (2, 6, 0, 16) / 24
+        std::vector<T> const d = {T(8) * f.unit, T(24) * f.unit, T(5) * f.unit, T(32) * f.unit};
+        auto const nw = hep::multi_channel_refine_weights(w, d, minw, T(1));
+        if (!check_state(r, nw, id, id + ": weights " + show(w) + " data " + show(d))) continue;
+        long double const want[4] = {2 / 24.0L, 6 / 24.0L, 0, 16 / 24.0L};
+        if (nw[2] != T()) r.violate("disabled-channel-re-enabled", id, id + " -> " + show(nw));
+        if (minw == T())
+            for (sz i = 0; i != 4; ++i)
+                if (!(std::fabs(static_cast<long double>(nw[i]) - want[i]) <= 64 * std::numeric_limits<T>::epsilon()))
+                { r.violate("update-rule", id, id + ": data " + show(d) + " -> " + show(nw) + ", expected (1/12, 3/12, 0, 8/12)"); break; }
+        r.distinct(vf::hash_str(id));
+    }
+}
+
 // the same chain on mpi_multi_channel under the MPI shim: the weights of iteration k+1 must follow from the
 // *reduced* adjustment data recorded in result k, on every rank
 template <typename T>
@@ -382,8 +412,8 @@ int main(int argc, char** argv)
     int const which = a.nshards == 1 ? -1 : a.shard % 3;
     int const ngroups = a.nshards == 1 ? 1 : a.nshards / 3;
     int const group = a.nshards == 1 ? 0 : a.shard / 3;
-    if ((which == -1 || which == 0) && r.want_prefix("float")) { explore<float>(r, a.thorough(), group, ngroups); if (group == 0) { real_runs<float>(r, a.thorough()); mpi_runs<float>(r); } }
-    if ((which == -1 || which == 1) && r.want_prefix("double")) { explore<double>(r, a.thorough(), group, ngroups); if (group == 0) { real_runs<double>(r, a.thorough()); mpi_runs<double>(r); } }
-    if ((which == -1 || which == 2) && r.want_prefix("long double")) { explore<long double>(r, a.thorough(), group, ngroups); if (group == 0) { real_runs<long double>(r, a.thorough()); mpi_runs<long double>(r); } }
+    if ((which == -1 || which == 0) && r.want_prefix("float")) { explore<float>(r, a.thorough(), group, ngroups); if (group == 0) { real_runs<float>(r, a.thorough()); mpi_runs<float>(r); extreme_products<float>(r); } }
+    if ((which == -1 || which == 1) && r.want_prefix("double")) { explore<double>(r, a.thorough(), group, ngroups); if (group == 0) { real_runs<double>(r, a.thorough()); mpi_runs<double>(r); extreme_products<double>(r); } }
+    if ((which == -1 || which == 2) && r.want_prefix("long double")) { explore<long double>(r, a.thorough(), group, ngroups); if (group == 0) { real_runs<long double>(r, a.thorough()); mpi_runs<long double>(r); extreme_products<long double>(r); } }
     return r.finish();
 }
